@@ -235,6 +235,12 @@ EvalRef(r) ==
                          LET q == MdRaw0(r.n) IN
                          IF q.out.tag = "exc" THEN q
                          ELSE IF q.out.v.k = "fn" THEN Invoke(q.out.v) ELSE q)
+      \* _.namespace(a=n) / _(a=n): an object whose attribute a is the value of n as the expression sees it (uncalled, not
+      \* rendered); handed to dtml-with it is searched like any other object, so the usual rules apply to a from then on
+      [] r.k = "mkns" -> Prefixed(ReadLog(Find(r.n), r.n),
+                         LET q == MdRaw0(r.n) IN
+                         IF q.out.tag = "exc" THEN q
+                         ELSE Quiet([tag |-> "val", v |-> [k |-> "obj", id |-> "NS", a |-> (r.a :> q.out.v)]]))
       [] r.k = "attr" -> Prefixed(ReadLog(Find(r.n), r.n),
                          LET q == MdRaw0(r.n) IN
                          IF q.out.tag = "exc" THEN q
